@@ -9,7 +9,8 @@ RULE = ("all N! permutations for N<=4 (quick) / N<=5 (thorough) on p=23 and 2039
         "seeds empty/short/long, repeated ciphertexts and identity components; generators, shuffle outputs, proof bytes "
         "(same RNG draws) and the verifier's decision are compared with the Gallina model; verification also runs in a "
         "fresh process on re-serialised data; large shuffles N in {513,700,1025} (thorough: up to 4097) and ristretto N=520 on the "
-        "implementation (sizes crossing power-of-two / batch boundaries)")
+        "implementation (sizes crossing power-of-two / batch boundaries)"
+        " Added in session 3: labels at digest-size / power-of-two length boundaries; ristretto shuffles with identity components verified again after the wire round trip;")
 
 
 from props.util import boundary_labels
